@@ -41,6 +41,12 @@ theorem gen_shape_pinned :
        "last_seen", "lower-watermark", "return"] := by
   decide
 
+/-- every function the model transcribes by hand still reads as it did when it was transcribed (whole source, not only
+    constants: the `elif` of `purge_devices`, the decisive last line of `is_usable_location`, the `ipv4_mapped` unwrapping, …) -/
+theorem gen_sources_pinned :
+    Gen.C03Tracker.sources = transcribedSources ∧ Gen.C03Tracker.usableLocationSrc = transcribedUsableLocation :=
+  ⟨rfl, rfl⟩
+
 /-- the state after a history -/
 def final (s : Tracker σ) (evs : List (Ev σ)) : Tracker σ := evs.foldl (fun s e => (step ipv skip s e).1) s
 
